@@ -375,7 +375,12 @@ PROPS["C15"] = {
              "generated subset closes on its own (data-channel close / staleness) after generated delays, and whenever a reader is told "
              "its peer has ended the harness calls Pop, as the redialing data path does. Oracle: Pop never returns a peer whose reader "
              "had been told 'ended' before Pop was called (happens-before chain, not a timing guess), never the same peer twice; after "
-             "End all peers are closed. Non-trivial = at least one self-closing peer among >= 2 collected. c15_binary (thorough): the client binary as a managed "
+             "End all peers are closed. Non-trivial = at least one self-closing peer among >= 2 collected. c15_conn: the connection object "
+             "an application gets (peer collection + connect loop + redialing packet conn + KCP + smux stream, assembled as Dial does) over a "
+             "scripted dialer whose peers refuse every Send; the application closes at once, after 50-1200 ms, or after its Write has "
+             "reported the broken data path, once or twice. Oracle: Close returns within 15 s, the collection is melted, every peer "
+             "obtained (also one delivered by a rendezvous in flight) is closed within 3 s, no rendezvous starts afterwards (observed "
+             "for a full ReconnectTimeout in some cases). Non-trivial = Close after a write error or a double Close. c15_binary (thorough): the client binary as a managed "
              "transport with generated -ice values and SOCKS ice=/max= arguments against a broker that refuses in five ways: alive after "
              "2-24 s of failing attempts, no broker poll in the 23 s after the SOCKS connection closed, exit within 15 s of SIGTERM."),
     "assumptions": ["the schedule is owned through explicit gates in the scripted dialer, not through a clock (sync.Mutex waits freeze a synctest bubble and Peers holds a mutex across the rendezvous)",
@@ -383,6 +388,7 @@ PROPS["C15"] = {
     "units": [U("c15_peers", "inpkg", "client/lib", "^TestVerifC15Peers$", (400, 5000), timeout=(400, 3000), wedge_is_violation=True),
               U("c15_rendezvous", "inpkg", "client/lib", "^TestVerifC15Rendezvous$", (12, 120), timeout=(400, 3000)),
               U("c15_teardown", "inpkg", "client/lib", "^TestVerifC15Teardown$", (60, 600), shards=(4, 8), timeout=(400, 3000)),
+              U("c15_conn", "inpkg", "client/lib", "^TestVerifC15Conn$", (30, 300), shards=(4, 8), timeout=(400, 3000)),
               U("c15_binary", "ext", "c15bin", "^TestVerifC15Binary$", (0, 8), shards=(0, 8), timeout=(400, 1200), tiers=["thorough"])],
 }
 META["C15"] = {
